@@ -148,6 +148,46 @@ def allowed_from_ranges(lengths, L):
     return None
 
 
+def check_text(ctx, c, text, tally, side, viol):
+    """The per-adapter header lines of the full text report: number of matches, split into 5' and 3' matches for linked and
+    anywhere adapters, matches on the reverse complement."""
+    import re
+    ads = c["ads1"] if side == 1 else c["ads2"]
+    for a in ads:
+        who = ("First read: " if side == 1 else "Second read: ") if c["paired"] else ""
+        m = re.search(r"^=== " + re.escape(who + "Adapter " + a["name"]) + r" ===\n\n([^\n]*)\n((?:[^\n]+\n)*)", text, re.M)
+        if not m:
+            viol("text-adapter-section", f"no section for adapter {a['name']} (read {side}) in the text report")
+            continue
+        head, body = m.group(1), m.group(2)
+        t = tally.get(a["name"], new_tally())
+        n5, n3 = sum(t["five"].values()), sum(t["three"].values())
+        got = {}
+        mm = re.search(r"5' trimmed: (\d+) times; 3' trimmed: (\d+) times", head)
+        if mm:
+            got["5' trimmed"], got["3' trimmed"] = int(mm.group(1)), int(mm.group(2))
+            want = {"5' trimmed": n5, "3' trimmed": n3}
+        else:
+            mm = re.search(r"Trimmed: (\d+) times", head)
+            if mm:
+                got["Trimmed"] = int(mm.group(1))
+            want = {"Trimmed": n5 + n3}
+        mm = re.search(r"Reverse-complemented: (\d+) times", head)
+        if mm:
+            got["Reverse-complemented"] = int(mm.group(1))
+        if c["revcomp"]:
+            want["Reverse-complemented"] = t["onrc"]
+        if a["kind"] == "b" and n5 + n3:
+            m5 = re.search(r"^(\d+) times, it overlapped the 5' end of a read", text[m.end(1):m.end(1) + 400], re.M)
+            m3 = re.search(r"^(\d+) times, it overlapped the 3' end or was within the read", text[m.end(1):m.end(1) + 400], re.M)
+            got["overlapped the 5' end"] = int(m5.group(1)) if m5 else None
+            got["overlapped the 3' end or within"] = int(m3.group(1)) if m3 else None
+            want["overlapped the 5' end"], want["overlapped the 3' end or within"] = n5, n3
+        if got != want:
+            viol("text-adapter-header", f"text report, adapter {a['name']} (read {side}): {got}, tally of the applied matches {want}; line: {head!r}")
+        ctx.count("text_adapter_sections_checked")
+
+
 def check_side(ctx, c, case, rep_list, tally, side, viol):
     names = [a["name"] for a in (c["ads1"] if side == 1 else c["ads2"])]
     if [ar["name"] for ar in rep_list] != names:
@@ -252,6 +292,10 @@ def one_case(ctx, k):
             check_side(ctx, c, case, rep["adapters_read2"] or [], t2, 2, viol)
             if (rep["read_counts"]["read2_with_adapter"] or 0) != wa2:
                 viol("with-adapter", f"read2_with_adapter={rep['read_counts']['read2_with_adapter']}, {wa2} reads had a match applied")
+        if "=== Summary ===" in run.out:
+            check_text(ctx, c, run.out, t1, 1, viol)
+            if c["paired"]:
+                check_text(ctx, c, run.out, t2, 2, viol)
         if c["revcomp"] and (rep["read_counts"]["reverse_complemented"] or 0) != nrc:
             viol("reverse-complemented", f"reverse_complemented={rep['read_counts']['reverse_complemented']}, {nrc} reads used the reverse complement")
         ctx.sample(dict(argv=argv, tally={n: dict(total=t["total"], five=len(t["five"]), three=len(t["three"])) for n, t in t1.items()}), limit=4)
